@@ -260,6 +260,7 @@ CHECKS = {
         technique="property-based testing against a naive reference",
     ),
     "C33": dict(
+        fuzz=dict(target="FuzzC33", seconds=300),
         test="TestC33", level="exploration", shards=16,
         tiers=dict(quick=dict(checks=150, timeout=600), thorough=dict(checks=10000, timeout=3000)),
         rule="rapid CSV files over a generated bucket schema (1-4 numeric columns, 1-400 rows, header row, time zone "
